@@ -1486,7 +1486,9 @@ func (gqm *GroupQuotaManager) deleteQuotaNoLock(quota *v1alpha1.ElasticQuota) er
 	gqm.updateResourceKeyNoLock()
 
 	// update request
-	deltaReq := quotav1.Subtract(v1.ResourceList{}, quotaInfo.CalculateInfo.Request)
+	// the parent accumulated the request limited by max (see recursiveUpdateGroupTreeWithDeltaRequest),
+	// so that is what has to be handed back.
+	deltaReq := quotav1.Subtract(v1.ResourceList{}, quotaInfo.getLimitRequestNoLock())
 	deltaNonPreemptibleRequest := quotav1.Subtract(v1.ResourceList{}, quotaInfo.CalculateInfo.NonPreemptibleRequest)
 	if !quotav1.IsZero(deltaReq) || !quotav1.IsZero(deltaNonPreemptibleRequest) {
 		gqm.updateGroupDeltaRequestNoLock(quotaInfo.ParentName, deltaReq, deltaNonPreemptibleRequest, -1)
